@@ -5,7 +5,7 @@ import PlumVerif.Spec.C10
   c10 <lk:0|1> <cr> <ev> …
       cr = addresses that have a device class, separated by "," (or "-")
       ev = F<a>:<m> (m frames from address a) | R (the oldest pending class loading completes /
-           raises) | G<a> (a user get() for the name of address a) | C (connection lost and re-established)
+           raises) | G<a> (a user get() for the name of address a) | C (connection lost and re-established) | T<a> (a get() for a with a timeout that expires at once)
       -> one snapshot per event, separated by " ; ":  held created setups pub disp handled gets
          (pub, disp: - | a.d,…;  handled: - | f.d,…;  gets: - | w|d,…), `reject` for an event the
          machine does not accept (nothing to release, or no fixpoint within the pass bound); the
@@ -26,6 +26,7 @@ def Snap.show (o : Snap) : String :=
 def parseEv (w : String) : Option Ev :=
   if w = "R" then some .release
   else if w = "C" then some .reconnect
+  else if w.startsWith "T" then (w.drop 1).toNat?.map .timedOut
   else if w.startsWith "G" then (w.drop 1).toNat?.map .get
   else if w.startsWith "F" then
     match (w.drop 1).toString.splitOn ":" with
